@@ -513,6 +513,8 @@ def est_part(pid, tier, seed, rnd):
         raise InternalError("%d establishment executions failed to set up" % st["setup_failed"])
     if st["calls_not_ready"] == 0:
         raise InternalError("no API call was made while an operation could not complete (vacuous)")
+    if st["selftests"] == 0 or st["selftests_ok"] != st["selftests"]:
+        raise InternalError("the wait detector of the shim failed its self-test (%d of %d): C05 would be vacuous" % (st["selftests_ok"], st["selftests"]))
     others = {}
     seen = set()
     byx = {}
